@@ -16,8 +16,8 @@ def burn_thin_slices(fn):
     for n in ast.walk(fn):
         if isinstance(n, ast.Subscript):
             sls = n.slice.elts if isinstance(n.slice, ast.Tuple) else [n.slice]
-            if sls and isinstance(sls[0], ast.Slice):
-                out.append(n)
+            if sls and isinstance(sls[0], ast.Slice) and not (sls[0].lower is None and sls[0].upper is None and sls[0].step is None):
+                out.append(n)             # (a full slice `:` in front of a column pick - X[:, index] - selects no rows)
     return out
 
 
@@ -135,6 +135,10 @@ def make_classifier(stores, lenattr="chain_length"):
         if isinstance(node, ast.AugAssign) and U(node.target) == f"self.{lenattr}" \
                 and isinstance(node.op, ast.Add) and U(node.value) == "1":
             ev.append(("INC_LEN", node.lineno, ""))
+        # the length re-read from the store itself: chain_length = len(self.<P>)  (equal to the stored count whatever was appended)
+        if isinstance(node, ast.Assign) and len(node.targets) == 1 and U(node.targets[0]) == f"self.{lenattr}" \
+                and U(node.value) in (f"len(self.{P})", f"self.{P}.__len__()"):
+            ev.append(("SET_LEN", node.lineno, ""))
         return ev
     return classify, compound
 
